@@ -449,11 +449,13 @@ namespace chaiscript {
         } else {
           m_state.m_global_objects.insert(std::make_pair(name, obj));
         }
+        CHAISCRIPT_VERIF_EVENT("acc", &m_mutex, "globals", 1, 0, 0, "");
       }
 
       /// Adds a new global (non-const) shared object, between all the threads
       Boxed_Value add_global_no_throw(Boxed_Value obj, std::string name) {
         chaiscript::detail::threading::unique_lock<chaiscript::detail::threading::shared_mutex> l(m_mutex);
+        CHAISCRIPT_VERIF_EVENT("acc", &m_mutex, "globals", 1, 0, 0, "");
 
         return m_state.m_global_objects.insert(std::pair{std::move(name), std::move(obj)}).first->second;
       }
@@ -466,12 +468,14 @@ namespace chaiscript {
           // insert failed
           throw chaiscript::exception::name_conflict_error(result.first->first);
         }
+        CHAISCRIPT_VERIF_EVENT("acc", &m_mutex, "globals", 1, 0, 0, "");
       }
 
       /// Updates an existing global shared object or adds a new global shared object if not found
       void set_global(Boxed_Value obj, std::string name) {
         chaiscript::detail::threading::unique_lock<chaiscript::detail::threading::shared_mutex> l(m_mutex);
         m_state.m_global_objects.insert_or_assign(std::move(name), std::move(obj));
+        CHAISCRIPT_VERIF_EVENT("acc", &m_mutex, "globals", 1, 0, 0, "");
       }
 
       /// Adds a new scope to the stack
@@ -586,6 +590,7 @@ namespace chaiscript {
         chaiscript::detail::threading::shared_lock<chaiscript::detail::threading::shared_mutex> l(m_mutex);
 
         const auto itr = m_state.m_global_objects.find(name);
+        CHAISCRIPT_VERIF_EVENT("acc", &m_mutex, "globals", 0, 0, 0, "");
         CHAISCRIPT_VERIF_EVENT("get", &t_holder, name, itr != m_state.m_global_objects.end() ? 2 : 3, -1, -1, "");
         if (itr != m_state.m_global_objects.end()) {
           return itr->second;
@@ -607,6 +612,7 @@ namespace chaiscript {
         chaiscript::detail::threading::unique_lock<chaiscript::detail::threading::shared_mutex> l(m_mutex);
 
         m_state.m_types.insert(std::make_pair(name, ti));
+        CHAISCRIPT_VERIF_EVENT("acc", &m_mutex, "types", 1, 0, 0, "");
       }
 
       /// Returns the type info for a named type
@@ -614,6 +620,7 @@ namespace chaiscript {
         chaiscript::detail::threading::shared_lock<chaiscript::detail::threading::shared_mutex> l(m_mutex);
 
         const auto itr = m_state.m_types.find(name);
+        CHAISCRIPT_VERIF_EVENT("acc", &m_mutex, "types", 0, 0, 0, "");
 
         if (itr != m_state.m_types.end()) {
           return itr->second;
@@ -631,6 +638,7 @@ namespace chaiscript {
       /// match
       std::string get_type_name(const Type_Info &ti) const {
         chaiscript::detail::threading::shared_lock<chaiscript::detail::threading::shared_mutex> l(m_mutex);
+        CHAISCRIPT_VERIF_EVENT("acc", &m_mutex, "types", 0, 0, 0, "");
 
         for (const auto &elem : m_state.m_types) {
           if (elem.second.bare_equal(ti)) {
@@ -644,6 +652,7 @@ namespace chaiscript {
       /// Return all registered types
       std::vector<std::pair<std::string, Type_Info>> get_types() const {
         chaiscript::detail::threading::shared_lock<chaiscript::detail::threading::shared_mutex> l(m_mutex);
+        CHAISCRIPT_VERIF_EVENT("acc", &m_mutex, "types", 0, 0, 0, "");
 
         return std::vector<std::pair<std::string, Type_Info>>(m_state.m_types.begin(), m_state.m_types.end());
       }
@@ -753,6 +762,7 @@ namespace chaiscript {
         // add the global values
         chaiscript::detail::threading::shared_lock<chaiscript::detail::threading::shared_mutex> l(m_mutex);
         retval.insert(m_state.m_global_objects.begin(), m_state.m_global_objects.end());
+        CHAISCRIPT_VERIF_EVENT("acc", &m_mutex, "globals", 0, 0, 0, "");
 
         return retval;
       }
@@ -1022,6 +1032,7 @@ namespace chaiscript {
 
       State get_state() const {
         chaiscript::detail::threading::shared_lock<chaiscript::detail::threading::shared_mutex> l(m_mutex);
+        CHAISCRIPT_VERIF_EVENT("acc", &m_mutex, "state", 0, 0, 0, "");
 
         return m_state;
       }
@@ -1030,6 +1041,7 @@ namespace chaiscript {
         chaiscript::detail::threading::unique_lock<chaiscript::detail::threading::shared_mutex> l(m_mutex);
 
         m_state = t_state;
+        CHAISCRIPT_VERIF_EVENT("acc", &m_mutex, "state", 1, 0, 0, "");
       }
 
       static void save_function_params(Stack_Holder &t_s, std::vector<Boxed_Value> &&t_params) {
@@ -1119,6 +1131,7 @@ namespace chaiscript {
       parser::ChaiScript_Parser_Base &get_parser() noexcept { return m_parser.get(); }
 
     private:
+#ifndef CHAISCRIPT_VERIF
       const decltype(State::m_boxed_functions) &get_boxed_functions_int() const noexcept { return m_state.m_boxed_functions; }
 
       decltype(State::m_boxed_functions) &get_boxed_functions_int() noexcept { return m_state.m_boxed_functions; }
@@ -1130,6 +1143,38 @@ namespace chaiscript {
       const decltype(State::m_functions) &get_functions_int() const noexcept { return m_state.m_functions; }
 
       decltype(State::m_functions) &get_functions_int() noexcept { return m_state.m_functions; }
+#else
+      // every touch of the three function tables goes through these accessors: const = read, non-const = write
+      const decltype(State::m_boxed_functions) &get_boxed_functions_int() const noexcept {
+        CHAISCRIPT_VERIF_EVENT("acc", &m_mutex, "boxed_functions", 0, 0, 0, "");
+        return m_state.m_boxed_functions;
+      }
+
+      decltype(State::m_boxed_functions) &get_boxed_functions_int() noexcept {
+        CHAISCRIPT_VERIF_EVENT("acc", &m_mutex, "boxed_functions", 1, 0, 0, "");
+        return m_state.m_boxed_functions;
+      }
+
+      const decltype(State::m_function_objects) &get_function_objects_int() const noexcept {
+        CHAISCRIPT_VERIF_EVENT("acc", &m_mutex, "function_objects", 0, 0, 0, "");
+        return m_state.m_function_objects;
+      }
+
+      decltype(State::m_function_objects) &get_function_objects_int() noexcept {
+        CHAISCRIPT_VERIF_EVENT("acc", &m_mutex, "function_objects", 1, 0, 0, "");
+        return m_state.m_function_objects;
+      }
+
+      const decltype(State::m_functions) &get_functions_int() const noexcept {
+        CHAISCRIPT_VERIF_EVENT("acc", &m_mutex, "functions", 0, 0, 0, "");
+        return m_state.m_functions;
+      }
+
+      decltype(State::m_functions) &get_functions_int() noexcept {
+        CHAISCRIPT_VERIF_EVENT("acc", &m_mutex, "functions", 1, 0, 0, "");
+        return m_state.m_functions;
+      }
+#endif
 
       static bool function_less_than(const Proxy_Function &lhs, const Proxy_Function &rhs) noexcept {
         auto dynamic_lhs(std::dynamic_pointer_cast<const dispatch::Dynamic_Proxy_Function>(lhs));
@@ -1241,6 +1286,12 @@ namespace chaiscript {
 
         get_boxed_functions_int().insert_or_assign(t_name, const_var(new_func));
         get_function_objects_int().insert_or_assign(t_name, std::move(new_func));
+#ifdef CHAISCRIPT_VERIF
+        {
+          const auto verif_itr = m_state.m_functions.find(t_name);
+          CHAISCRIPT_VERIF_EVENT("reg", &m_mutex, t_name, verif_itr == m_state.m_functions.end() ? 0 : static_cast<long>(verif_itr->second->size()), 0, 0, "");
+        }
+#endif
       }
 
       mutable chaiscript::detail::threading::shared_mutex m_mutex;
